@@ -16,7 +16,7 @@ ASSUMPTIONS = [
     "real disk I/O and binascii are modelled (VFS, abstract hex pair); the on-disk Bloom filter is C11's subject",
 ]
 BOUNDS = {
-    "quick": "Bloom (1,.5)->2 bits, (3,.28)->8/2, (3,.2)->11/3, (5,.3)->13/2, (5,.22)->16/2; counting Bloom 2, 3, 6 cells; expanding/rotating 1..3 sub-filters (est 2, one-hash geometry); count-min family 1x1, 2x2, 3x2 (mean-min from width 2); cuckoo / counting cuckoo capacity 1..3 x bucket 1..2, every occupancy shape; channels bytes, __bytes__, file object, file path (+ hex for the Bloom family)",
+    "quick": "Bloom (1,.5)->2 bits, (3,.28)->8/2, (3,.2)->11/3, (5,.3)->13/2, (5,.22)->16/2; counting Bloom 2, 3, 6 cells; expanding/rotating 1..3 sub-filters (est 2, one-hash geometry; 8- and 16-bit two-hash sub-filters); count-min family 1x1, 2x2, 3x2 (mean-min from width 2); cuckoo / counting cuckoo capacity 1..3 x bucket 1..2, every occupancy shape; channels bytes, __bytes__, file object, file path (+ hex for the Bloom family)",
     "thorough": "adds Bloom (10,.05)->63/4, counting Bloom 11 cells, count-min 3x3",
     "outside": "larger geometries; real file systems; BloomFilterOnDisk (C11)",
 }
@@ -54,6 +54,8 @@ def _bloomlike(ctx, cfg):
     fs = env.FS(ctx, ["bloom", "countingbloom"])
     from probables import BloomFilter, CountingBloomFilter
     counting = cfg["kind"] == "cbf"
+    table = {}
+    FIXED = lambda key, depth=1: table.get(key, [3, 5, 7, 11, 13, 17, 19, 23, 29, 31])[:depth]  # noqa: E731,N806  (a hand-written strategy, re-supplied to every loader)
     if counting:
         obj = CountingBloomFilter(cfg["est"], cfg["fpr"], hash_function=FIXED)
         for j in range(obj.number_bits):
@@ -75,6 +77,9 @@ def _bloomlike(ctx, cfg):
     probe = hv(ctx, "probe", k, m)
     a1, a2 = obj.check_alt(probe), g.check_alt(probe)
     ctx.check(ctx.eq(a1, a2) if counting else a1 is a2, "same-answer")
+    table["probe key"] = probe          # the re-supplied strategy is the one the loaded filter hashes with
+    b1, b2_ = obj.check("probe key"), g.check("probe key")
+    ctx.check(ctx.eq(b1, b2_) if counting else b1 is b2_, "same-answer-by-key")
     if ch == "hex":
         ctx.check(ctx.all_eq(env.hex_payload(ctx, blob), env.hex_payload(ctx, g.export_hex())), "reexport-identical")
         # the hex payload carries the same cells and the same footer values as the bytes channel
@@ -140,6 +145,8 @@ def _cms(ctx, cfg):
     w, d, kind = cfg["w"], cfg["d"], cfg["kind"]
     cls = getattr(probables, kind)
     kw = {"num_hitters": 2} if kind == "HeavyHitters" else {"threshold": 5} if kind == "StreamThreshold" else {}
+    table = {}
+    FIXED = lambda key, depth=1: table.get(key, [3, 5, 7, 11, 13, 17, 19, 23, 29, 31])[:depth]  # noqa: E731,N806
     obj = cls(width=w, depth=d, hash_function=FIXED, **kw)
     for j in range(w * d):
         obj._bins[j] = ctx.int(f"cell{j}", -2 ** 31, 2 ** 31 - 1)
@@ -154,6 +161,8 @@ def _cms(ctx, cfg):
     probe = [ctx.hashval(f"probe{i}", w) for i in range(d)]
     if type(g) is cls:      # comparing answers of different query types would only repeat the same-class finding
         ctx.check(ctx.eq(obj.check_alt(probe), g.check_alt(probe)), "same-answer")
+        table["probe key"] = probe
+        ctx.check(ctx.eq(obj.check("probe key"), g.check("probe key")), "same-answer-by-key")
     ctx.check(env.blob_eq(ctx, blob, env.export_bytes(ctx, g)), "reexport-identical")
     ctx.check(env.blob_eq(ctx, blob, env.export_bytes(ctx, obj)), "channels-agree")
 
@@ -192,10 +201,19 @@ def _cuckoo(ctx, cfg):
         e = cfg["rate"]
         o = cls.init_error_rate(e, capacity=f.capacity, bucket_size=f.bucket_size, max_swaps=f.max_swaps, hash_function=t.hf)
         b2 = env.export_bytes(ctx, o)
-        g1 = cls.frombytes(b2, error_rate=e, hash_function=t.hf)
+        calls = []
+
+        def hf_rec(key, seed=0):     # the re-supplied strategy, recording what it is asked to hash
+            calls.append(key)
+            return 0x1234567 if key == "probe-rate" else t.hf(key, seed)
+        g1 = cls.frombytes(b2, error_rate=e, hash_function=hf_rec)
         p = fs.path(0, "rate.bin")
         o.export(p)
-        g2 = cls.load_error_rate(e, p, hash_function=t.hf)
+        g2 = cls.load_error_rate(e, p, hash_function=hf_rec)
+        for gx in (g1, g2):
+            del calls[:]
+            gx.check("probe-rate")
+            ctx.check("probe-rate" in calls, "cuckoo-hash-function-resupplied")
         ctx.check(g1.fingerprint_size_bits == o.fingerprint_size_bits and g2.fingerprint_size_bits == o.fingerprint_size_bits and
                   g1.error_rate == e and g2.error_rate == e, "cuckoo-error-rate-resupplied")
     ctx.check(len(blob) == f.capacity * f.bucket_size * (8 if t.counting else 4) + 8, "export-size")
@@ -230,6 +248,9 @@ def jobs(tier):
             for ch in CHANNELS[:4]:
                 js.append({"h": "c05.roundtrip", "cfg": {"kind": kind, "est": 2, "L": L, "channel": ch}, "opts": dict(o, cost=L)})
         js.append({"h": "c05.roundtrip", "cfg": {"kind": kind, "est": 2, "L": 2, "rate": 0.3, "channel": "bytes"}, "opts": dict(o, cost=5)})
+        for ch in ("bytes", "path"):      # sub-filters of a whole number of bytes: (3, .28) -> 8 bits, (5, .22) -> 16 bits
+            js.append({"h": "c05.roundtrip", "cfg": {"kind": kind, "est": 3, "L": 2, "rate": 0.28, "channel": ch}, "opts": dict(o, cost=8)})
+        js.append({"h": "c05.roundtrip", "cfg": {"kind": kind, "est": 5, "L": 3, "rate": 0.22, "channel": "bytes"}, "opts": dict(o, cost=20)})
         if tier == "thorough":
             js.append({"h": "c05.roundtrip", "cfg": {"kind": kind, "est": 3, "L": 2, "rate": 0.05, "channel": "bytes"}, "opts": dict(o, cost=50)})
     for kind in ("CountMinSketch", "CountMeanSketch", "CountMeanMinSketch", "HeavyHitters", "StreamThreshold"):
